@@ -119,3 +119,12 @@ register(Theorem(
     cases=[Case("ok", ensures={"pbkdf2": "result == spec.bip39.seed(m, '')"})],
     fuc=[f"{B}.to_seed"], witnesses=[{"m": "abc"}],
 ))
+
+register(Theorem(
+    "C10.wordlist", P, params={"k": ("enum", [0])},
+    body=f"spec.bip39.wordlist_digest({B}.load_wordlist())",
+    cases=[Case("english", ensures={"digest": "result == spec.bip39.ENGLISH_SHA256"})],
+    native_ok=NATIVE + ["spec.bip39.wordlist_digest"], fuc=[f"{B}.load_wordlist"], witnesses=[{"k": 0}],
+    note="ground fact: the table the other theorems treat abstractly is the BIP39 English list (pinned digest of the "
+         "canonical file), so 'every word is from the English list' follows from 'every word is an entry of the table'",
+))
